@@ -2818,8 +2818,12 @@ class DesignSpaceDocument(LogMixin, AsDictMixin):
     def tostring(self, encoding=None):
         """Returns the designspace as a string. Default encoding ``utf-8``."""
         if encoding is str or (encoding is not None and encoding.lower() == "unicode"):
-            f = StringIO()
-            xml_declaration = False
+            # Not every ElementTree implementation (lxml) can write text to a
+            # StringIO: serialize to UTF-8 bytes without a declaration and decode.
+            f = BytesIO()
+            writer = self.writerClass(f, self)
+            writer.write(encoding="UTF-8", xml_declaration=False)
+            return f.getvalue().decode("utf-8")
         elif encoding is None or encoding == "utf-8":
             f = BytesIO()
             encoding = "UTF-8"
